@@ -113,11 +113,38 @@ pub fn execute(parallel: bool, n: usize, fail_calls: &[usize], pool: Option<&ray
     };
     let after = g.population().clone();
     let after_ptr = g.population().as_ptr() as usize;
+    let calls = counter.load(Ordering::SeqCst);
+    let first = judge(&before, before_ptr, &after, after_ptr, &r, fail_calls, calls);
+    if first.is_some() || r.is_err() || n == 0 {
+        return (first, calls);
+    }
+    // two more steps on the same Generation value (no failures left in the plan): every step must show
+    // the child maker the population the *previous* step produced, not an earlier one
+    let mut total_calls = calls;
+    for step in 2..=3 {
+        let before = g.population().clone();
+        let before_ptr = g.population().as_ptr() as usize;
+        let later_plan: Vec<usize> = vec![];
+        let r = mcx::guarded(|| match (parallel, pool) {
+            (true, Some(p)) => p.install(|| g.par_next()),
+            (true, None) => g.par_next(),
+            (false, _) => g.serial_next(),
+        });
+        let r = match r {
+            Ok(r) => r,
+            Err(p) => return (Some(("panic", format!("step {step} panicked: {p}"))), total_calls),
+        };
+        let after = g.population().clone();
+        let after_ptr = g.population().as_ptr() as usize;
+        let now = counter.load(Ordering::SeqCst);
+        if let Some((k, w)) = judge(&before, before_ptr, &after, after_ptr, &r, &later_plan, now - total_calls) {
+            return (Some((k, format!("step {step} on the same Generation: {w}"))), now);
+        }
+        total_calls = now;
+    }
     let pop = g.into_population();
     let _ = pop;
-    // the maker was moved into the generation; its counters are not reachable any more, so count via ids
-    let calls = counter.load(Ordering::SeqCst);
-    (judge(&before, before_ptr, &after, after_ptr, &r, fail_calls, calls), calls)
+    (None, calls)
 }
 
 pub fn failure_plans(n: usize) -> Vec<Vec<usize>> {
@@ -196,7 +223,7 @@ pub fn run(run: &mut Run) {
     run.transitions = execs;
     run.traces_validated = execs;
     run.distinct_nontrivial = err_paths * 17;
-    run.rule = "tier A: {serial_next, par_next} x population size 0..6 x failure plans {none, every single call, every pair of calls} x rayon pool size 1..16, each configuration executed several times on real threads; larger populations (17..257, thorough ..1000) with a reduced failure product; oracle independent of the schedule (size preserved, every child made from the unmodified previous population, pairwise distinct random words, on error: population identical and error among the injected ones). Tier B (merged below when available): all schedules of the rayon model for N <= 3/4. non-trivial = configurations with at least one injected failure".into();
+    run.rule = "tier A: {serial_next, par_next} x population size 0..6 x failure plans {none, every single call, every pair of calls} x rayon pool size 1..16, each configuration executed several times on real threads, successful steps followed by two more steps on the same Generation (every step must build on the population the previous step produced); larger populations (17..257, thorough ..1000) with a reduced failure product; oracle independent of the schedule (size preserved, every child made from the unmodified previous population, pairwise distinct random words, on error: population identical and error among the injected ones). Tier B (merged below when available): all schedules of the rayon model for N <= 3/4. non-trivial = configurations with at least one injected failure".into();
     run.bound("tierA.max_population", json!(max_n));
     run.bound("tierA.pool_sizes", json!("1..=16"));
     run.bound("tierA.failure_deviation_bound", json!(2));
